@@ -1,10 +1,9 @@
 #!/bin/sh
-# Builds the static checker from files on disk only (module cache), offline.
+# Builds the static checker and goyacc from files on disk only (module cache), offline.
 set -e
 cd "$(dirname "$0")"
 export GOFLAGS=-mod=mod GOPROXY=off GOSUMDB=off GOTOOLCHAIN=local CGO_ENABLED=0
 unset GOWORK
 mkdir -p bin evidence/reports
-(cd sa && go build -o ../bin/verifsa ./cmd/verifsa)
-if [ -d sa/goyacc ]; then (cd sa && go build -o ../bin/goyacc ./goyacc); fi
-echo "setup ok: $(ls bin)"
+(cd sa && go build -o ../bin/verifsa ./cmd/verifsa && go build -o ../bin/goyacc golang.org/x/tools/cmd/goyacc)
+echo "setup ok: $(ls bin | tr '\n' ' ')"
